@@ -140,7 +140,9 @@ impl Elem for crate::track::Tz {
     fn id(&self) -> i64 {
         0
     }
-    fn release(self) {}
+    fn release(self) {
+        crate::track::zforget(self)
+    }
 }
 impl Arg for crate::track::Tz {
     const OWNED: bool = false;
@@ -628,6 +630,8 @@ where
     let mut rec = rec.into_inner();
     // drops performed by the closure itself (mode 1) are not the crate's
     let mut dropped = track::drops_sorted(&log);
+    // zero-sized drop-counted elements: every destructor run shows as identity 0
+    dropped.extend(log.iter().filter(|e| matches!(e, track::Ev::ZDrop)).map(|_| 0i64));
     for id in &rec.closure_dropped {
         if let Some(pos) = dropped.iter().position(|d| d == id) {
             dropped.remove(pos);
